@@ -11,7 +11,7 @@ RAdd(x, y) == LET g == Gcd(x[2], y[2]) IN Red(x[1] * (y[2] \div g) + y[1] * (x[2
 RInt(n) == <<n, 1>>
 ROne == <<1, 1>>
 RZero == <<0, 1>>
-REq(x, y) == x[1] * y[2] = y[1] * x[2]
+REq(x, y) == Red(x[1], x[2]) = Red(y[1], y[2])
 RECURSIVE RSumSeq(_)
 RSumSeq(s) == IF s = <<>> THEN RZero ELSE RAdd(Head(s), RSumSeq(Tail(s)))
 =============================================================================
